@@ -13,6 +13,10 @@ let handle (line : string) : string =
       let x = parse_path { s = path; i = 0 } in
       let d = parse_jv { s = data; i = 0 } in
       string_of_bytes (model_get x d)
+  | [("locate" | "locates" | "first" | "has") as cmd; path; data] ->
+      let x = parse_path { s = path; i = 0 } in
+      let d = parse_jv { s = data; i = 0 } in
+      string_of_bytes ((match cmd with "locate" -> model_locate | "locates" -> model_locate_ses | "first" -> model_first | _ -> model_has) x d)
   | ["match"; eq; data] ->
       let e = parse_eqn { s = eq; i = 0 } in
       let d = parse_jv { s = data; i = 0 } in
